@@ -68,7 +68,37 @@ def inFrag2 : Expr → Bool
   | .unaryApp .not a => inFrag2 a
   | .unaryApp .neg a => inFrag2 a
   | .binaryApp op a b => infixOp op && inFrag2 a && inFrag2 b
+  | .hasAttr e _ => inFrag2 e
   | _ => false
+
+theorem unreserved_of_normalized {a : String} (h : isNormalizedIdent a = true) : unreservedIdent a = true := by
+  simp only [isNormalizedIdent, Bool.and_eq_true] at h
+  simp only [unreservedIdent, validIdent, Bool.and_eq_true]
+  exact ⟨h.1.2, h.2⟩
+
+theorem continuesAdd_stop {rest : List Token} (h : headLv rest = 7) : continuesAdd rest = false := by
+  cases rest with
+  | nil => rfl
+  | cons t r => cases t <;> simp_all [continuesAdd, headLv, tokLevel]
+
+theorem hasFields_stop {rest : List Token} (h : headLv rest = 7) : hasFields rest = some ([], rest) := by
+  cases rest with
+  | nil => rfl
+  | cons t r => cases t <;> simp_all [hasFields, headLv, tokLevel]
+
+/-- the right-hand side of `has` as printed: a bare identifier when possible, a string literal otherwise -/
+theorem hasRhs_key (me : Char → Bool) (a : String) {rest : List Token} (h : headLv rest = 7) :
+    hasRhs (keyTok me a :: rest) = some ([a], rest) := by
+  unfold keyTok
+  cases hn : isNormalizedIdent a
+  · simp [hasRhs, strTok, continuesAdd_stop h, strOfRaw_escapeStr]
+  · simp only [if_true, hasRhs, unreserved_of_normalized hn]
+    cases rest with
+    | nil => simp [hasFields, continuesAdd]
+    | cons t r =>
+      have h1 := hasFields_stop h
+      have h2 := continuesAdd_stop h
+      cases t <;> simp_all [headLv, tokLevel]
 
 theorem atom_of_noParens2 {e : Expr} (hf : inFrag2 e = true) (hp : needsParens e = false) : isAtom e = true := by
   cases e with
@@ -382,6 +412,22 @@ theorem parse_print_aux2 (me : Char → Bool) : ∀ k e, fsize e ≤ k → inFra
         refine ⟨fun rest hr => ?_, by simp [isAnd], by simp [isOr], by simp [isBin], fun _ => K, fun _ => Pl⟩
         have h := chainK_done (K rest (by omega)) (stop_of_seven (fun t h => multOp_none (by omega)) hr)
         exact ⟨.expr (.binaryApp .mul a b), add_to_top (to_add h (by omega)) hr (not_if_of_plain (Pl rest)), rfl⟩
+    case hasAttr e' a =>
+      refine good_of_top (by rfl) (fun rest hr => ?_)
+      simp only [inFrag2] at hf
+      simp only [fsize] at hfe hk W S
+      obtain ⟨sa, ha1, ha2, has⟩ := W e' (by omega) hf (.ident "has" :: keyTok me a :: rest) (by simp [headLv, tokLevel])
+      have hA := m_add ha1 has (by simp [headLv, tokLevel])
+      refine ⟨.expr (.hasAttr e' a), ?_, rfl⟩
+      show exprLevel (parseFuel f) _ = _
+      simp only [printE, List.append_assoc, List.cons_append, List.nil_append]
+      have hrel : relation (parseFuel f) (paren (needsParens e') (printE me e') ++ .ident "has" :: keyTok me a :: rest) =
+          some (.expr (.hasAttr e' a), rest) := by
+        unfold relation
+        rw [hA]
+        simp [ha2, hasRhs_key me a hr, extendedHas]
+      rw [to_expr (not_if_of_plain has)]
+      exact to_or (to_and hrel (by omega)) (by omega)
     all_goals (simp [inFrag2] at hf)
 
 theorem paren_length_ge (b : Bool) (ts : List Token) : ts.length ≤ (paren b ts).length := by
@@ -447,6 +493,13 @@ theorem fsize_le_length (me : Char → Bool) : ∀ k e, fsize e ≤ k → inFrag
       have p1' := paren_length_ge (needsParens a && !isBin op a) (printE me a)
       have hop := hf.1.1
       cases op <;> simp [infixOp] at hop <;> simp only [printE, List.length_cons, List.length_append] <;> omega
+    case hasAttr e' a =>
+      simp only [inFrag2] at hf
+      simp only [fsize] at hk ⊢
+      have h1 := ih e' (by omega) hf
+      have p1 := paren_length_ge (needsParens e') (printE me e')
+      simp only [printE, List.length_cons, List.length_append, List.length_nil]
+      omega
     all_goals (simp [inFrag2] at hf)
 
 
